@@ -281,8 +281,9 @@ def build(pkg, sp=None):
     names = {"document": "word/document.xml", "styles": "word/styles.xml", "numbering": "word/numbering.xml",
              "footnotes": "word/footnotes.xml", "endnotes": "word/endnotes.xml", "comments": "word/comments.xml"}
     if sp.rename_parts:
-        names.update({"styles": "word/st.xml", "numbering": "word/sub/nm.xml", "footnotes": "word/fn1.xml",
-                      "endnotes": "word/en1.xml", "comments": "word/cm.xml", "document": "word/doc2.xml"})
+        # (names are taken literally: a percent sign in a part name is a percent sign)
+        names.update({"styles": "word/st%20x.xml", "numbering": "word/sub/nm%41.xml", "footnotes": "word/fn1%2e.xml",
+                      "endnotes": "word/en1.xml", "comments": "word/c%6D.xml", "document": "word/doc2.xml"})
     parts = []   # (name, root or bytes)
     body = list(pkg.body)
     doc_rels = list(pkg.rels)
